@@ -16,6 +16,16 @@ const KIB: usize = 1024;
 /// total bytes a Sink-API program may put in flight without ever exhausting the 256 KiB window
 const SINK_BUDGET: usize = 240 * KIB;
 
+/// Regions that are only sampled by the random generator once the corresponding known finding is gone
+/// (`--wide id,sink,nomax`): Identity sizes above 1024, Sink programs beyond the window, lengths >= 2^63
+/// without a configured maximum.
+#[derive(Clone, Copy, Default)]
+struct Wide {
+    id: bool,
+    sink: bool,
+    nomax: bool,
+}
+
 fn parse_job(v: &Value, fault: &str) -> Job {
     let prog = v["prog"]
         .as_array()
@@ -124,7 +134,15 @@ fn random_sched(rng: &mut StdRng) -> Vec<Step> {
         .collect()
 }
 
-fn codec_choices() -> Vec<(&'static str, i64)> {
+fn codec_choices(w: Wide) -> Vec<(&'static str, i64)> {
+    let mut v = codec_choices_base();
+    if w.id {
+        v.extend([("id", 1025), ("id", 1500), ("id", 4096), ("id", 70000)]);
+    }
+    v
+}
+
+fn codec_choices_base() -> Vec<(&'static str, i64)> {
     vec![
         ("id", 1), ("id", 2), ("id", 10), ("id", 100), ("id", 1023), ("id", 1024),
         ("uv", 0), ("uv", 1), ("uv", 10), ("uv", 127), ("uv", 128), ("uv", 1000), ("uv", 16384), ("uv", 1 << 20), ("uv", -1),
@@ -155,8 +173,9 @@ fn valid(codec: &str, n: i64, len: usize) -> bool {
     }
 }
 
-fn random_job(rng: &mut StdRng, fault: &str) -> Job {
-    let (codec, n) = *codec_choices().choose(rng).unwrap();
+fn random_job(rng: &mut StdRng, fault: &str, w: Wide) -> Job {
+    let (codec, n) = *codec_choices(w).choose(rng).unwrap();
+    let sink_budget = if w.sink { 3 << 20 } else { SINK_BUDGET };
     let sizes = size_choices(codec, n, rng);
     let mode = rng.gen_range(0..3); // 0 sink, 1 framed, 2 mixed
     let nops = rng.gen_range(1..7);
@@ -173,14 +192,14 @@ fn random_job(rng: &mut StdRng, fault: &str) -> Job {
             _ => rng.gen_bool(0.4) && framed_ok,
         };
         if pick_framed {
-            let budget = if mode == 1 { 3 << 20 } else { SINK_BUDGET };
+            let budget = if mode == 1 { 3 << 20 } else { sink_budget };
             if wire + cost > budget {
                 continue;
             }
             wire += cost;
             prog.push(SendOp::Framed(len));
         } else {
-            if wire + cost > SINK_BUDGET {
+            if wire + cost > sink_budget {
                 continue;
             }
             match rng.gen_range(0..5) {
@@ -222,13 +241,15 @@ fn random_job(rng: &mut StdRng, fault: &str) -> Job {
     }
 }
 
-fn random_raw_job(rng: &mut StdRng, fault: &str) -> Job {
+fn random_raw_job(rng: &mut StdRng, fault: &str, w: Wide) -> Job {
     let n = *[0i64, 1, 10, 127, 1000, 16384, 1 << 20, -1].choose(rng).unwrap();
     // without a maximum a length >= 2^63 panics the receiver (known finding, exercised by the probe
     // group) and 2^62 aborts the process in the allocator: both only with a configured maximum here
     let mut classes = vec!["overlong", "nonminimal", "nonminimal3"];
     if n >= 0 {
         classes.extend(["overflow10", "oversize", "oversize2x", "huge62", "huge63"]);
+    } else if w.nomax {
+        classes.extend(["overflow10", "huge63"]);
     }
     let mut prog = vec![];
     for _ in 0..rng.gen_range(0..4) {
@@ -264,11 +285,13 @@ fn main() {
         }
     }
     let mut rng = StdRng::seed_from_u64(seed ^ 0xC04);
+    let wide = args.str("wide", "");
+    let w = Wide { id: wide.contains("id"), sink: wide.contains("sink"), nomax: wide.contains("nomax") };
     for _ in 0..args.u64("random", 0) {
-        jobs.push(random_job(&mut rng, &fault));
+        jobs.push(random_job(&mut rng, &fault, w));
     }
     for _ in 0..args.u64("random-raw", 0) {
-        jobs.push(random_raw_job(&mut rng, &fault));
+        jobs.push(random_raw_job(&mut rng, &fault, w));
     }
     for (i, j) in jobs.iter_mut().enumerate() {
         j.idx = i;
